@@ -43,4 +43,9 @@ def obligations(tier):
             if it % t: continue
             add(f'bootstrap/{AN[algo]}/n{n}g{g}ny{ny}t{t}it{it}/{"distinct" if distinct else "arbitrary"}rng', {'HP_CV': 2, 'HP_ALGO': algo, 'HP_N': n, 'HP_NY': ny, 'HP_T': t, 'HP_NLV': 2, 'HP_G': g, 'HP_IT': it, 'HP_RNG_DISTINCT': distinct},
                 (2 * n + 3) if not distinct else n + 4, ignore=('random_kfold_group_generator.unwind',) if not distinct else ())
+    # result matrices handed in already populated (re-validation): same obligations
+    add('prefilled/loo/mlr/n3ny1t1', {'HP_CV': 0, 'HP_ALGO': 0, 'HP_N': 3, 'HP_NY': 1, 'HP_T': 1, 'HP_NLV': 1, 'HP_G': 1, 'HP_PREFILL': 1}, 7)
+    add('prefilled/kfold/mlr/n3ny1t1/groups010', {'HP_CV': 1, 'HP_ALGO': 0, 'HP_N': 3, 'HP_NY': 1, 'HP_T': 1, 'HP_NLV': 1, 'HP_G': 2, 'HP_GROUPS': '0,1,0', 'HP_PREFILL': 1}, 7)
+    for algo in (0, 1, 2):
+        add(f'prefilled/bootstrap/{AN[algo]}/n3g2ny1t1it1', {'HP_CV': 2, 'HP_ALGO': algo, 'HP_N': 3, 'HP_NY': 1, 'HP_T': 1, 'HP_NLV': 1, 'HP_G': 2, 'HP_IT': 1, 'HP_RNG_DISTINCT': 1, 'HP_PREFILL': 1}, 7)
     return obs
